@@ -4,6 +4,7 @@ CONSTANTS
  MaxItems = 3
  MaxTicket = 10
  MaxStale = 0
+ MaxExh = 0
  AllowRemove = FALSE
  Dev = {"stale_ticket"}
 INVARIANTS FairBoundTight
